@@ -3,4 +3,6 @@
 cd "$(dirname "$0")"
 [ -x .venv/bin/python ] && .venv/bin/python -c "import z3,cvc5" 2>/dev/null || ./setup.sh >/dev/null || exit 3
 TIER="${2:-${VERIF_TIER:-quick}}"
-PYTHONWARNINGS=ignore PYTHONPATH=/repo:/verif PYTHONHASHSEED=0 exec .venv/bin/python -m vverif check "$1" --tier "$TIER"
+# VVERIF_REPO: tree under verification (default /repo; the seeded-change tooling points it at a scratch worktree)
+REPO="${VVERIF_REPO:-/repo}"
+PYTHONWARNINGS=ignore PYTHONPATH="$REPO":/verif PYTHONHASHSEED=0 exec .venv/bin/python -m vverif check "$1" --tier "$TIER"
